@@ -193,13 +193,19 @@ def gen_page_sweep(rng):
     return {"class": "pages", "ops": h.ops, "keys": h.keys}
 
 
-def gen_history_cap(rng):
-    """more than 100 content changes of one key"""
+def gen_history_cap(rng, target=None):
+    """exactly [target] content changes of one key (default: one of 99, 100, 101, 103, 130): the 100-entry
+    bound is crossed by 1, by 3 and by 30 entries, with unchanged publishes mixed in"""
     h = Hist(rng, 2)
     k = h.keys[0]
-    n = rng.choice([99, 100, 101, 130])
-    for i in range(n):
-        h.add(k, "v%d" % i if rng.random() < 0.9 else "v%d" % max(0, i - 1))
+    n = target if target is not None else rng.choice([99, 100, 101, 103, 130])
+    changes = 0
+    while changes < n:
+        if rng.random() < 0.9 or changes == 0:
+            h.add(k, "v%d" % changes)
+            changes += 1
+        else:
+            h.add(k, "v%d" % (changes - 1))          # same content again: no new entry
         if rng.random() < 0.05:
             h.add(h.keys[1])
     h.ops.append(("hist", k, 0, 1000))
@@ -492,6 +498,8 @@ def run(chk, replay=None):
         cases.append(gen_page_sweep(rng))
     for _ in range(6 if quick else 40):
         cases.append(gen_history_cap(rng))
+        for tgt in (100, 101, 104):
+            cases.append(gen_history_cap(rng, tgt))
     for _ in range(160 if quick else 3000):
         cases.append(gen_follower(rng, rng.randrange(3, 30), rng.choice([1, 2, 3]), False))
     for _ in range(60 if quick else 600):
